@@ -38,6 +38,7 @@ type RunConfig struct {
 	Verbose   bool
 	CoverFns  map[*ssa.Function]bool
 	Hist      string
+	FeAudit   int // re-ask every n-th front-end decision to the solver (0 = off)
 }
 
 type PathRecord struct {
@@ -160,7 +161,7 @@ func explore(ld *Loaded, cfg RunConfig) (*RunResult, error) {
 		wg.Add(1)
 		go func(w int) {
 			defer wg.Done()
-			ex := &Exec{tt: NewTermTable(), budget: cfg.Budget, capConc: cfg.CapConc, props: cfg.Props}
+			ex := &Exec{tt: NewTermTable(), budget: cfg.Budget, capConc: cfg.CapConc, props: cfg.Props, feAudit: cfg.FeAudit}
 			if cfg.Verbose {
 				ex.forkSites = map[token.Pos]int{}
 			}
@@ -272,6 +273,8 @@ func explore(ld *Loaded, cfg RunConfig) (*RunResult, error) {
 			res.Q.PropUnsat += ex.st.PropUnsat
 			res.Q.PropUnknown += ex.st.PropUnknown
 			res.Q.FrontEnd += ex.st.FrontEnd
+			res.Q.FeAudited += ex.st.FeAudited
+			res.Q.FeAuditDiff += ex.st.FeAuditDiff
 			res.Q.ModelHits += ex.st.ModelHits
 			res.SolverTime += sol.Time
 			res.SolverQ += sol.Queries
